@@ -158,6 +158,9 @@ def inside_with(fnode, target, suffix):
     if isinstance(s, (ast.With, ast.AsyncWith)) and fld == "body":
       for it in s.items:
         ce = it.context_expr
+        if isinstance(ce, ast.Name):
+          ds = E.local_defs(fnode, ce.id)
+          ce = ds[0] if len(ds) == 1 else ce
         if isinstance(ce, ast.Call) and endswith(dotted(ce.func), suffix):
           return True
   return False
